@@ -327,7 +327,7 @@ def run(ctx):
                      rep_mod.compact_grid_object_representation_convert, srep_mod.CompactGridObjectStateRepresentation.__init__,
                      orep_mod.CompactGridObjectObservationRepresentation.__init__, GridObject.__eq__, GridObject.__hash__,
                      Grid.__eq__, Grid.__hash__, Agent.__eq__, Agent.__hash__]):
-        for i, (types, colors, shape, view) in enumerate(repgen.space_cases(ctx, 70)):
+        for i, (types, colors, shape, view) in enumerate(repgen.space_cases(ctx, 160)):
             if not ctx.mine(i):
                 continue
             if ctx.out_of_time(0.9):
